@@ -190,6 +190,14 @@ bool AngularObservations_right_handed_angles(const struct PointData *self);
 /* non-singular: points >= 1 um apart (bearing_distance returns d = 0 below that).  Written as the NEGATION of the
    comparison bearing.cpp makes so that an SMT solver propagates it as a literal. */
 #define NONSING(i) (!(P.sqrt_ret[i] < 1e-6) && P.sqrt_ret[i] <= 1e10)
+/* Solver hints.  bearing_distance returns (0,0) below 1e-6 and orientation() returns through an exception branch;
+   CBMC turns both into if-then-else terms.  cvc5 proves a value identity only when both sides are the SAME term, so
+   the _val contracts write the symbols with the same (under the preconditions: dead) case split.  The structure
+   check proves, with SAT, that each hint EQUALS the plain symbol (HINTS_EQ), so nothing is weakened.            */
+#define DISTX(i) (P.sqrt_ret[i] < 1e-6 ? 0.0 : P.sqrt_ret[i])
+#define BRGX(i) (P.sqrt_ret[i] < 1e-6 ? 0.0 : BRG(i))
+#define ORIX(o) (SP(o)->test_or ? SP(o)->attr_or : 0.0)
+#define HINTS_EQ(i) (DISTX(i) == P.sqrt_ret[i] && BRGX(i) == BRG(i))
 /* sin and cos were applied to the bearing of call #i */
 #define TRIG_OF(i) (G.sin_arg[i] == BRG(i) && G.cos_arg[i] == BRG(i))
 #define TRIG(i) (FIN(P.S[i], 1.0) && FIN(P.C[i], 1.0) && FIN(P.atan2_ret[i], M_PI))
@@ -417,7 +425,7 @@ GV_CANARY("LocalLinearization_distance entry");
 __CPROVER_requires(SHAPE2(self, obs) && NONSING(0) && TRIG(0))
 __CPROVER_requires(__CPROVER_rw_ok(SP(obs), sizeof(struct StandPoint)) && !SAME(SP(obs), self) && !SAME(SP(obs), self->PD) && !SAME(SP(obs), obs))
 __CPROVER_requires(FIN(SP(obs)->attr_or, 1e12))
-#define RAW_direction ((VALUE(obs) + SP(obs)->attr_or - BRG(0)) * R2CC)
+#define RAW_direction ((VALUE(obs) + ORIX(obs) - BRGX(0)) * R2CC)
 #if LIN_VALUES
 __CPROVER_requires(SP(obs)->test_or) /* the exception path is covered by the structure check */
 __CPROVER_requires(RAW_OK(RAW_direction)) /* stated precondition, used through LIN_INST_RAW */
@@ -429,12 +437,12 @@ __CPROVER_assigns(self->rhs, self->size, self->maxn, self->coeff, self->index, G
 __CPROVER_ensures(BEARING_OF(0, F0, T0))
 __CPROVER_ensures(gv_exc == 0 ==> G.raw == RAW_direction)
 __CPROVER_ensures(gv_exc == 0 ==> COEF_(U_OR, -1.0))
-__CPROVER_ensures(gv_exc == 0 ==> (COEF_(U_FY, -(KANG(P.sqrt_ret[0]) * P.C[0])) && COEF_(U_FX, KANG(P.sqrt_ret[0]) * P.S[0])))
-__CPROVER_ensures(gv_exc == 0 ==> (COEF_(U_TY, KANG(P.sqrt_ret[0]) * P.C[0]) && COEF_(U_TX, -(KANG(P.sqrt_ret[0]) * P.S[0]))))
+__CPROVER_ensures(gv_exc == 0 ==> (COEF_(U_FY, -(KANG(DISTX(0)) * P.C[0])) && COEF_(U_FX, KANG(DISTX(0)) * P.S[0])))
+__CPROVER_ensures(gv_exc == 0 ==> (COEF_(U_TY, KANG(DISTX(0)) * P.C[0]) && COEF_(U_TX, -(KANG(DISTX(0)) * P.S[0]))))
 #else
 __CPROVER_ensures((gv_exc == 0) == (SP(obs)->test_or != 0))
-__CPROVER_ensures(G.nsqrt == 1 && G.natan2 == 1 && G.nsin == 1 && G.ncos == 1 && TRIG_OF(0))
-__CPROVER_ensures(gv_exc == 0 ==> REDUCED(self))
+__CPROVER_ensures(G.nsqrt == 1 && G.natan2 == 1 && G.nsin == 1 && G.ncos == 1 && TRIG_OF(0) && HINTS_EQ(0))
+__CPROVER_ensures(gv_exc == 0 ==> (ORIX(obs) == SP(obs)->attr_or && REDUCED(self)))
 __CPROVER_ensures(gv_exc == 0 ==> POST_ROW(ALL5, SUM5, U_OR, U_FX, U_FY, U_TX, U_TY))
 #endif
 //@ entry LocalLinearization_direction
@@ -453,6 +461,169 @@ __CPROVER_assigns(a, G.j2)
 __CPROVER_loop_invariant(0 <= G.j2 && G.j2 <= 3 && (G.j1 == 0 || G.j2 == 0) && a == ADDN(SUBN(G.raw, G.j1), G.j2) && a <= 200e4)
 __CPROVER_decreases(3 - G.j2)
 //@ tail LocalLinearization_direction 2
+G.j2++;
+//@ end
+
+
+/* ================================================================================================== */
+/* s_distance: phi = sd = sqrt(dx^2+dy^2+dz^2).  Row: T: dx/sd, dy/sd, dz/sd; F: negatives.
+   rhs = (observed - sd) * 1e3 mm.  sd == 0 (coincident points): exception.                              */
+//@ contract LocalLinearization_s_distance
+#define SD0 P.sqrt_ret[0]
+__CPROVER_requires(SHAPE2(self, obs) && SD0 <= 1e10 && PRE_UNK6(U_FX, U_FY, U_FZ, U_TX, U_TY, U_TZ))
+#if LIN_VALUES
+__CPROVER_requires(!(SD0 == 0)) /* the exception path is covered by the structure check */
+#endif
+__CPROVER_assigns(self->rhs, self->size, self->maxn, self->coeff, self->index, G, gv_exc, F0->ix_, F0->iy_, F0->iz_,
+                  T0->ix_, T0->iy_, T0->iz_)
+#if LIN_VALUES
+__CPROVER_ensures(G.sqrt_arg[0] == DX(F0, T0) * DX(F0, T0) + DY(F0, T0) * DY(F0, T0) + DZ(F0, T0) * DZ(F0, T0))
+__CPROVER_ensures(gv_exc == 0 ==> self->rhs == (VALUE(obs) - SD0) * 1e3)
+__CPROVER_ensures(gv_exc == 0 ==> (COEF_(U_FY, -(DY(F0, T0) / SD0)) && COEF_(U_FX, -(DX(F0, T0) / SD0)) && COEF_(U_FZ, -(DZ(F0, T0) / SD0))))
+__CPROVER_ensures(gv_exc == 0 ==> (COEF_(U_TY, DY(F0, T0) / SD0) && COEF_(U_TX, DX(F0, T0) / SD0) && COEF_(U_TZ, DZ(F0, T0) / SD0)))
+#else
+__CPROVER_ensures(G.nsqrt == 1 && (gv_exc != 0) == (SD0 == 0))
+__CPROVER_ensures(gv_exc == 0 ==> POST_ROW(ALL6, SUM6, U_FX, U_FY, U_FZ, U_TX, U_TY, U_TZ))
+#endif
+//@ entry LocalLinearization_s_distance
+GV_CANARY("LocalLinearization_s_distance entry");
+//@ end
+
+/* ================================================================================================== */
+/* z_angle: phi = acos(dz/sd).  With k = 10*R2G/(d sd^2): T: x k dz dx, y k dz dy, z -k d d; F: negatives.
+   A second-face reading (observed > pi) observes 2pi - phi: the code accounts for it in the computed value
+   (za = 2pi - za); the ROW must then be the negative one (postcondition 5).
+   rhs = (observed - computed) * R2CC cc; no reduction loops: for 0 < observed < 2pi the difference is within
+   (-pi, pi] by construction.                                                                              */
+//@ contract LocalLinearization_z_angle
+#define ZD P.sqrt_ret[0]
+#define ZSD P.sqrt_ret[1]
+#define ZK (10 * R2G / (ZD * ZSD * ZSD))
+#define ZPX (ZK * DZ(F0, T0) * DX(F0, T0))
+#define ZPY (ZK * DZ(F0, T0) * DY(F0, T0))
+#define ZPZ (-ZK * ZD * ZD)
+#define ZA_COMPUTED (VALUE(obs) > M_PI ? 2 * M_PI - P.acos_ret : P.acos_ret)
+__CPROVER_requires(SHAPE2(self, obs) && ZD <= 1e10 && ZSD <= 1e10 && PRE_UNK6(U_FX, U_FY, U_FZ, U_TX, U_TY, U_TZ))
+#if LIN_VALUES
+__CPROVER_requires(!(ZD == 0) && !(ZSD == 0)) /* the exception path is covered by the structure check */
+__CPROVER_requires(ZD >= 1e-6 && ZSD >= 1e-6)  /* non-singular (not a vertical sight): no overflow in k */
+#endif
+__CPROVER_assigns(self->rhs, self->size, self->maxn, self->coeff, self->index, G, gv_exc, F0->ix_, F0->iy_, F0->iz_,
+                  T0->ix_, T0->iy_, T0->iz_)
+#if LIN_VALUES
+__CPROVER_ensures(G.sqrt_arg[0] == DX(F0, T0) * DX(F0, T0) + DY(F0, T0) * DY(F0, T0) &&
+                  G.sqrt_arg[1] == (DX(F0, T0) * DX(F0, T0) + DY(F0, T0) * DY(F0, T0)) + DZ(F0, T0) * DZ(F0, T0) &&
+                  G.acos_arg == DZ(F0, T0) / ZSD)
+__CPROVER_ensures(gv_exc == 0 ==> self->rhs == (VALUE(obs) - ZA_COMPUTED) * R2CC)
+__CPROVER_ensures((gv_exc == 0 && !(VALUE(obs) > M_PI)) ==> (COEF_(U_FY, -ZPY) && COEF_(U_FX, -ZPX) && COEF_(U_FZ, -ZPZ)))
+__CPROVER_ensures((gv_exc == 0 && !(VALUE(obs) > M_PI)) ==> (COEF_(U_TY, ZPY) && COEF_(U_TX, ZPX) && COEF_(U_TZ, ZPZ)))
+__CPROVER_ensures((gv_exc == 0 && VALUE(obs) > M_PI) ==> (COEF_(U_FY, ZPY) && COEF_(U_FX, ZPX) && COEF_(U_FZ, ZPZ) &&
+                                                           COEF_(U_TY, -ZPY) && COEF_(U_TX, -ZPX) && COEF_(U_TZ, -ZPZ)))
+#else
+__CPROVER_ensures((gv_exc != 0) == (ZD == 0 || ZSD == 0))
+__CPROVER_ensures(gv_exc == 0 ==> (G.nsqrt == 2 && G.nacos == 1))
+__CPROVER_ensures(gv_exc == 0 ==> POST_ROW(ALL6, SUM6, U_FX, U_FY, U_FZ, U_TX, U_TY, U_TZ))
+#endif
+//@ entry LocalLinearization_z_angle
+GV_CANARY("LocalLinearization_z_angle entry");
+//@ end
+
+/* ================================================================================================== */
+/* angle: phi = s2 - s1 (mod 2pi); bearing #0 to bs (= to), #1 to fs.  Ki = 10*R2G/di.
+   fs: y +K2 C2, x -K2 S2;  bs: y -K1 C1, x +K1 S1;  F: y -K2 C2 + K1 C1, x +K2 S2 - K1 S1.
+   rhs = (observed - (s2 - s1 [+2pi])) * R2CC, reduced by whole circles.
+   Stated precondition: from, bs, fs pairwise distinct (gama allows bs == fs since 1.3.31; then the row lists the
+   target's unknowns twice with cancelling coefficients -- not covered here).                              */
+//@ contract LocalLinearization_angle
+#define ANG_DS0 (BRGX(1) - BRGX(0))
+#define ANG_DS (ANG_DS0 < 0 ? ANG_DS0 + 2 * M_PI : ANG_DS0)
+#define RAW_angle ((VALUE(obs) - ANG_DS) * R2CC)
+#define K1C1 (KANG(DISTX(0)) * P.C[0])
+#define K1S1 (KANG(DISTX(0)) * P.S[0])
+#define K2C2 (KANG(DISTX(1)) * P.C[1])
+#define K2S2 (KANG(DISTX(1)) * P.S[1])
+__CPROVER_requires(SHAPE3(self, obs) && NONSING(0) && NONSING(1) && TRIG(0) && TRIG(1))
+__CPROVER_requires(PRE_UNK6(U_FX, U_FY, U_TX, U_TY, U_SX, U_SY))
+#if LIN_VALUES
+__CPROVER_requires(RAW_OK(RAW_angle)) /* stated precondition, used through LIN_INST_RAW */
+#endif
+__CPROVER_assigns(self->rhs, self->size, self->maxn, self->coeff, self->index, G, F0->ix_, F0->iy_, T0->ix_, T0->iy_, S0->ix_, S0->iy_)
+#if LIN_VALUES
+__CPROVER_ensures(BEARING_OF(0, F0, T0) && BEARING_OF(1, F0, S0))
+__CPROVER_ensures(G.raw == RAW_angle)
+__CPROVER_ensures(COEF_(U_FY, -K2C2 + K1C1) && COEF_(U_FX, K2S2 - K1S1))
+__CPROVER_ensures(COEF_(U_TY, -K1C1) && COEF_(U_TX, K1S1))
+__CPROVER_ensures(COEF_(U_SY, K2C2) && COEF_(U_SX, -K2S2))
+#else
+__CPROVER_ensures(gv_exc == 0 && G.nsqrt == 2 && G.natan2 == 2 && G.nsin == 2 && G.ncos == 2 && TRIG_OF(0) && TRIG_OF(1) && HINTS_EQ(0) && HINTS_EQ(1))
+__CPROVER_ensures(REDUCED(self))
+__CPROVER_ensures(POST_ROW(ALL6, SUM6, U_FX, U_FY, U_TX, U_TY, U_SX, U_SY))
+#endif
+//@ entry LocalLinearization_angle
+GV_CANARY("LocalLinearization_angle entry");
+//@ pre LocalLinearization_angle 1
+G.raw = a;
+LIN_INST_RAW(a, RAW_angle);
+//@ loop LocalLinearization_angle 1
+__CPROVER_assigns(a, G.j1)
+__CPROVER_loop_invariant(0 <= G.j1 && G.j1 <= 3 && a == SUBN(G.raw, G.j1) && (G.j1 > 0 ==> a > -200e4))
+__CPROVER_decreases(3 - G.j1)
+//@ tail LocalLinearization_angle 1
+G.j1++;
+//@ loop LocalLinearization_angle 2
+__CPROVER_assigns(a, G.j2)
+__CPROVER_loop_invariant(0 <= G.j2 && G.j2 <= 3 && (G.j1 == 0 || G.j2 == 0) && a == ADDN(SUBN(G.raw, G.j1), G.j2) && a <= 200e4)
+__CPROVER_decreases(3 - G.j2)
+//@ tail LocalLinearization_angle 2
+G.j2++;
+//@ end
+
+/* ================================================================================================== */
+/* xNorthAngle: bearing of north in radians (see NORTH_GON above).                                      */
+//@ contract PointData_xNorthAngle
+__CPROVER_requires(__CPROVER_r_ok(self, sizeof(struct PointData)) && CS_OK(self))
+__CPROVER_assigns()
+__CPROVER_ensures(__CPROVER_return_value == NORTH_GON(self) * G2R)
+//@ entry PointData_xNorthAngle
+GV_CANARY("PointData_xNorthAngle entry");
+//@ end
+
+/* ================================================================================================== */
+/* azimuth: phi = s - N.  Row as direction without the orientation.  rhs = (observed + N - s) * R2CC reduced.
+   PointData::xNorthAngle is replaced by its contract (verified by check xNorthAngle).                   */
+//@ contract LocalLinearization_azimuth
+#define RAW_azimuth ((VALUE(obs) + NORTH_GON(self->PD) * G2R - BRGX(0)) * R2CC)
+__CPROVER_requires(SHAPE2(self, obs) && CS_OK(self->PD) && NONSING(0) && TRIG(0) && PRE_UNK4(U_FX, U_FY, U_TX, U_TY))
+#if LIN_VALUES
+__CPROVER_requires(RAW_OK(RAW_azimuth)) /* stated precondition, used through LIN_INST_RAW */
+#endif
+__CPROVER_assigns(self->rhs, self->size, self->maxn, self->coeff, self->index, G, F0->ix_, F0->iy_, T0->ix_, T0->iy_)
+#if LIN_VALUES
+__CPROVER_ensures(BEARING_OF(0, F0, T0))
+__CPROVER_ensures(G.raw == RAW_azimuth)
+__CPROVER_ensures(COEF_(U_FY, -(KANG(DISTX(0)) * P.C[0])) && COEF_(U_FX, KANG(DISTX(0)) * P.S[0]))
+__CPROVER_ensures(COEF_(U_TY, KANG(DISTX(0)) * P.C[0]) && COEF_(U_TX, -(KANG(DISTX(0)) * P.S[0])))
+#else
+__CPROVER_ensures(gv_exc == 0 && G.nsqrt == 1 && G.natan2 == 1 && G.nsin == 1 && G.ncos == 1 && TRIG_OF(0) && HINTS_EQ(0))
+__CPROVER_ensures(REDUCED(self))
+__CPROVER_ensures(POST_ROW(ALL4, SUM4, U_FX, U_FY, U_TX, U_TY))
+#endif
+//@ entry LocalLinearization_azimuth
+GV_CANARY("LocalLinearization_azimuth entry");
+//@ pre LocalLinearization_azimuth 1
+G.raw = a;
+LIN_INST_RAW(a, RAW_azimuth);
+//@ loop LocalLinearization_azimuth 1
+__CPROVER_assigns(a, G.j1)
+__CPROVER_loop_invariant(0 <= G.j1 && G.j1 <= 3 && a == SUBN(G.raw, G.j1) && (G.j1 > 0 ==> a > -200e4))
+__CPROVER_decreases(3 - G.j1)
+//@ tail LocalLinearization_azimuth 1
+G.j1++;
+//@ loop LocalLinearization_azimuth 2
+__CPROVER_assigns(a, G.j2)
+__CPROVER_loop_invariant(0 <= G.j2 && G.j2 <= 3 && (G.j1 == 0 || G.j2 == 0) && a == ADDN(SUBN(G.raw, G.j1), G.j2) && a <= 200e4)
+__CPROVER_decreases(3 - G.j2)
+//@ tail LocalLinearization_azimuth 2
 G.j2++;
 //@ end
 
@@ -495,4 +666,15 @@ HARNESS(zdiff)
 HARNESS(h_diff)
 HARNESS(distance)
 HARNESS(direction)
+HARNESS(s_distance)
+HARNESS(z_angle)
+HARNESS(angle)
+HARNESS(azimuth)
+
+void h_xNorthAngle(void)
+{
+  mk_state();
+  double n = PointData_xNorthAngle(&gv_pd);
+  GV_CANARY("h_xNorthAngle end");
+}
 //@ end
